@@ -308,8 +308,13 @@ func checkC18(c *Ctx) {
 			if !ok || !a.Write {
 				continue
 			}
-			top := topFn(a.Fn)
-			if top != conv {
+			inHooks := false
+			for _, hf := range fns {
+				if hf == a.Fn {
+					inHooks = true
+				}
+			}
+			if !inHooks {
 				// constructor assigns from parseCursor: checked below
 				continue
 			}
@@ -563,10 +568,27 @@ func checkHookOrder(c *Ctx, rule string) {
 			if g == nil {
 				return
 			}
+			// the request the hook is called with: the closure's parameter, or - for a method value - the method's
+			// parameter after the receiver
+			var hostPrm ssa.Value
+			if len(g.Params) > 0 {
+				hostPrm = g.Params[0]
+			}
+			if g.Synthetic != "" {
+				if mo, _ := g.Object().(*types.Func); mo != nil {
+					if m := g.Prog.FuncValue(mo); m != nil && m.Blocks != nil {
+						g = m
+						hostPrm = nil
+						if len(m.Params) > 1 {
+							hostPrm = m.Params[1]
+						}
+					}
+				}
+			}
 			for _, f := range append([]*ssa.Function{g}, staticCalleesDeep(g, 2)...) {
 				eachInstr(f, func(_ *ssa.BasicBlock, _ int, x ssa.Instruction) {
 					if cc := callOf(x); cc != nil {
-						if t := calleeFn(cc); t != nil && t.Name() == "SetResponse" && len(cc.Args) > 0 && cc.Args[0] != ssa.Value(g.Params[0]) {
+						if t := calleeFn(cc); t != nil && t.Name() == "SetResponse" && len(cc.Args) > 0 && cc.Args[0] != hostPrm {
 							h.completes = true
 						}
 					}
